@@ -581,6 +581,8 @@ pub fn run(op: &str, a: &Args) -> Option<Outcome> {
         ["ctx", "script"] => Some(crate::ops_more::ctx_script(arg(a, "script"))),
         ["dom", "order_keys"] => Some(crate::ops_more::dom_order_keys(arg(a, "doc"))),
         ["dom", "tree_atomic"] => Some(crate::ops_more::dom_tree_atomic(arg(a, "scenario"))),
+        ["dom", "views_after_edits"] => Some(crate::ops_more::dom_after_edits(arg(a, "scenario"), "views")),
+        ["dom", "keys_after_edits"] => Some(crate::ops_more::dom_after_edits(arg(a, "scenario"), "keys")),
         _ => None,
     }
 }
@@ -730,6 +732,11 @@ pub fn grid(op: &str, limit: usize) -> (usize, Vec<(Args, Outcome)>) {
         ["ctx", "script"] => {
             for s in crate::ops_more::ctx_scripts() {
                 try_one(mk(&[("script", s.as_str())]), &mut n, &mut bad);
+            }
+        }
+        ["dom", "views_after_edits"] | ["dom", "keys_after_edits"] => {
+            for sc in crate::ops_more::EDIT_SCENARIOS {
+                try_one(mk(&[("scenario", sc)]), &mut n, &mut bad);
             }
         }
         ["dom", "tree_atomic"] => {
